@@ -470,6 +470,62 @@ def overlap_program(n=4, wide=3):
     return p
 
 
+def wbforms_program(T=2, K=3):
+    """directed family: chains S(k, m), k = 0 .. K, that start in place on D(a + m), hand the copy from step to step
+    (under `bc.N.1.1.1` / `cyc` placement step k runs on rank k mod N: the tile travels through every rank) and whose
+    LAST step copies it back into a fresh element D(b + m), the final write-back being spelled in every form:
+      TA   -> (k < K) ? A TA(k+1, m) : D(b + m)             ternary, the element on the FALSE side
+      TB   -> (!(k < K)) ? D(b + m) : A TB(k+1, m)          ternary, the element on the TRUE side
+      TC   -> (k < K) ? A TC(k+1, m)   -> (!(k < K)) ? D(b + m)      two binary guards
+      TD   -> A TE(k, m)  -> D(b + ..)                      unconditional (every instance; the consumer TE only reads)
+           -> (k % 2 == 0) ? D(b' + ..)                     and one more under a binary guard true and false over k
+    every guard is true on some instances and false on others; the inputs use the ternary form as well"""
+    p = Prog()
+    p.gvals = []
+    k, m = L(0), L(1)
+    lt = B("lt", k, C(K))
+    first = B("eq", k, C(0))
+    base = [0]
+
+    def block(n):
+        b = base[0]
+        base[0] += n
+        return b
+
+    def cls(name, flows):
+        c = Cls(name)
+        c.locals = [Local("k", 'R', C(0), C(K), C(1)), Local("m", 'R', C(0), C(T - 1), C(1))]
+        c.params = [0, 1]
+        c.flows = flows
+        return c
+
+    def elt(b):
+        return ('M', [jdfgen.simp(B("add", C(b), m))])
+
+    def elt2(b):
+        return ('M', [jdfgen.simp(B("add", C(b), B("add", B("mul", k, C(T)), m)))])
+
+    def chain_in(ci, a):
+        return Dep(True, first, elt(a), ('T', ci, 0, [('E', B("sub", k, C(1))), ('E', m)]))
+
+    def nxt(ci):
+        return ('T', ci, 0, [('E', B("add", k, C(1))), ('E', m)])
+    ta = cls("TA", [Flow("A", 'B', [chain_in(0, block(T)), Dep(False, lt, nxt(0), elt(block(T)))])])
+    tb = cls("TB", [Flow("A", 'B', [chain_in(1, block(T)), Dep(False, jdfgen.N(lt), elt(block(T)), nxt(1))])])
+    tc = cls("TC", [Flow("A", 'B', [chain_in(2, block(T)), Dep(False, lt, nxt(2)), Dep(False, jdfgen.N(lt), elt(block(T)))])])
+    n2 = T * (K + 1)
+    td = cls("TD", [Flow("A", 'B', [_dep_in(elt2(block(n2))), _dep_out(('T', 4, 0, [('E', k), ('E', m)])), _dep_out(elt2(block(n2))),
+                                    Dep(False, B("eq", B("mod", k, C(2)), C(0)), elt2(block(n2)))])])
+    te = cls("TE", [Flow("A", 'R', [_dep_in(('T', 3, 0, [('E', k), ('E', m)]))])])
+    p.classes = [ta, tb, tc, td, te]
+    p.ndata = base[0]
+    p.template = "wbforms"
+    why = []
+    assert jdfgen.wf(p, why), why
+    assert mem_private(p) and not value_hazards(p) and not reads_new(p)
+    return p
+
+
 def _t_multiout(g):
     """S(k) with 2-3 output flows; flow j feeds T_j(k, 0..m_j-1): under most placements the destination
     rank sets of the outputs of one producer overlap without being equal (the relay-lacks-output class
